@@ -22,6 +22,9 @@ func propC19(c *Ctx, r *Report) {
 	r.Clauses = append(r.Clauses, "token characters (E20): in the lexer's punctuation scanner the characters consumed on the path to every addToken(K) - case label, successful match() tests, advance() calls - spell exactly the WGSL token K, and the block-comment skipper is entered with exactly \"/*\" consumed (so a comment or operator never shifts the position from which the following text is lexed)")
 	c.runLexerTokenChars(r, "lex.tokenchars")
 	r.floor("lex.tokenchars", 40)
+	r.Clauses = append(r.Clauses, "block-scoped local names in dependency ordering (E7): the function of the parser's dependency collector that walks the statements of a block gives them a set of local names of its own, so a name declared inside a block does not hide a module-scope declaration after the block (acceptance must not depend on declaration order)")
+	c.runDepBlockScope(r, "scope.depblock")
+	r.floor("scope.depblock", 1)
 	r.Clauses = append(r.Clauses, "trailing commas (E9): every parser loop over a comma-separated list (it goes round again after match(TokenComma)) tests the closing token again before the next element - in the loop condition or at the top of the body - so `f(a, b,)` is accepted whenever `f(a, b)` is")
 	c.runListLoops(r, "parse.listloop")
 	r.floor("parser.listloops", 5)
